@@ -443,6 +443,8 @@ class DeserializationMethodVisitor(
                 fall_back_on_default = (
                     field.fall_back_on_default or self.fall_back_on_default
                 )
+                # a required aggregate field has no default to fall back on
+                aggregate_fall_back = fall_back_on_default and not field.required
                 if field.flattened:
                     flattened_aliases = get_deserialization_flattened_aliases(
                         cls, field, self.default_conversion
@@ -452,7 +454,7 @@ class DeserializationMethodVisitor(
                             field.name,
                             tuple(set(map(self.aliaser, flattened_aliases))),
                             field_method,
-                            fall_back_on_default,
+                            aggregate_fall_back,
                         )
                     )
                 elif field.pattern_properties is not None:
@@ -467,12 +469,12 @@ class DeserializationMethodVisitor(
                             field.name,
                             field_pattern,
                             field_method,
-                            fall_back_on_default,
+                            aggregate_fall_back,
                         )
                     )
                 elif field.additional_properties:
                     additional_field = AdditionalField(
-                        field.name, field_method, fall_back_on_default
+                        field.name, field_method, aggregate_fall_back
                     )
                 else:
                     normal_fields.append(
